@@ -258,16 +258,37 @@ def run_real_parallel(cases):
     """run the implementation on all cases (forked workers; results in order)"""
     global _RUNAWAYS
     idx_cases = list(enumerate(cases))
-    if len(cases) < 400:
+    if len(cases) < 12000:
+        # in-process: about a millisecond per case; process hand-offs cost more than that on a busy machine
         _RUNAWAYS = None
         return _worker(idx_cases)
     import multiprocessing as mp
     _RUNAWAYS = mp.get_context("fork").Value("i", 0)
     nproc = min(16, os.cpu_count() or 4)
-    size = max(50, min(500, len(cases) // (nproc * 4) + 1))
+    size = len(cases) // nproc + 1          # one slice per worker: as few hand-offs as possible
     batches = [idx_cases[i:i + size] for i in range(0, len(idx_cases), size)]
-    with mp.get_context("fork").Pool(nproc) as pool:
-        outs = pool.map(_worker, batches)
+    # ProcessPoolExecutor (unlike multiprocessing.Pool) notices a worker that was killed from outside; the
+    # batches that did not come back are then run again, at last in this process
+    from concurrent.futures import ProcessPoolExecutor
+    from concurrent.futures.process import BrokenProcessPool
+    outs = [None] * len(batches)
+    for attempt in range(3):
+        todo = [i for i, o in enumerate(outs) if o is None]
+        if not todo:
+            break
+        try:
+            with ProcessPoolExecutor(nproc, mp_context=mp.get_context("fork")) as ex:
+                futs = {i: ex.submit(_worker, batches[i]) for i in todo}
+                for i, f in futs.items():
+                    try:
+                        outs[i] = f.result()
+                    except BrokenProcessPool:
+                        pass
+        except BrokenProcessPool:
+            pass
+    for i, o in enumerate(outs):
+        if o is None:
+            outs[i] = _worker(batches[i])
     return [x for o in outs for x in o]
 
 
